@@ -150,6 +150,9 @@ def run(ctx: Ctx) -> None:
     load_rules(ctx, "R11.load", icache_only=True)
     from .c10 import perset_rule
     perset_rule(ctx, "R11.perset")
+    # the hit counter equals a reference cache's only if the set evicts the block its policy names and tells the policy of every access
+    from ..cachesetspec import notify_rule
+    notify_rule(ctx, "R11.notify")
 
     r = ctx.rule("R11.deleg", "the cache system delegates program storage to the lower instruction memory")
     from ..flowspec import signature
